@@ -128,8 +128,9 @@ def parse_tlc(r, rc):
     m = re.search(r"Invariant (\S+) is violated", out)
     if m:
         r.violation = m.group(1)
-    elif "Temporal properties were violated" in out:
-        r.violation = "temporal"
+    elif "Temporal properties were violated" in out or re.search(r"Temporal property \S+ was violated", out):
+        m2 = re.search(r"Temporal property (\S+) was violated", out)
+        r.violation = m2.group(1) if m2 else "temporal"
     elif re.search(r"Action property (\S+) is violated", out):
         r.violation = re.search(r"Action property (\S+) is violated", out).group(1)
     elif "Deadlock reached" in out:
